@@ -141,6 +141,8 @@ def cell(vk, tk):
     if tk in ('enum-str', 'enum-strmix'): return 'content' if vk in STR_KINDS else 'reject'
     if tk == 'enum-float': return {'int': 'content', 'float': 'content', 'bool': 'unspec'}.get(vk, 'reject')
     if tk == 'enum-bool': return 'content' if vk == 'bool' else 'reject'
+    if tk == 'literal' and vk == 'complex':
+        return 'content'        # Literal[1] offered 1+0j: equal but of another kind, like 1.0 / True - not settled (DESIGN 1.4); 1+2j is refused
     if tk in ('literal', 'enum'):
         return 'content' if vk in ('int', 'float', 'none', 'bool', 'bytes', 'bytearray') + STR_KINDS else 'reject'
     raise KeyError(tk)
@@ -288,6 +290,39 @@ def run(ctx):
             ctx.crash('matrix', ci, e)
     ctx.exhaustive['kind-matrix x single contexts'] = True
 
+    # --- equal values of different kinds one after the other on the SAME (cached) scalar converter ------------------------------
+    # (round 11: a memo of constructed results answered before the kind test, so that 5+0j is a float once 5 was). The matrix above
+    # meets a target's value kinds in a fixed order with mostly distinct numbers; here each number goes through every kind it has an
+    # equal value in, legal kinds first, then in random order, twice.
+    from decimal import Decimal as _Dec
+    from fractions import Fraction as _Frac
+    scalar_targets = [tk for tk in ('int', 'float', 'complex', 'decimal', 'fraction', 'bool', 'int-subclass', 'enum-int', 'enum-float', 'enum-bool', 'literal')
+                      if tk in TG]
+    for ei, tk in enumerate(scalar_targets):
+        if ei % ctx.nshards != ctx.shard or not ctx.want('equal-values', ei):
+            continue
+        rng = ctx.rng('equal-values', ei)
+        try:
+            for n in (0, 1, 5, 2, -3, 12):
+                forms = [('int', n), ('float', float(n)), ('complex', complex(n)), ('str-numeric', str(n))]
+                if n in (0, 1):
+                    forms.insert(0, ('bool', bool(n)))
+                if n == 2:
+                    forms.append(('float', 2.5))
+                legal = [f for f in forms if cell(f[0], tk) != 'reject']
+                rest = [f for f in forms if f not in legal]
+                later = forms * 2
+                rng.shuffle(later)
+                for cname in ('top', 'list-element', 'mapping-value', 'tuple-slot', 'dataclass-field-struct'):
+                    wt, wv = CX[cname]
+                    for vk, v in legal + rest + later:
+                        if vk not in VALUES:
+                            continue
+                        ctx.count('equal_value_sequence_calls')
+                        check(vk, tk, cname, wt(TG[tk]), wv(v), cell(vk, tk), ei, 'equal-values')
+        except Exception as e:
+            ctx.crash('equal-values', ei, e)
+
     # --- thorough: random compositions of contexts ------------------------------------------------------------------
     if ctx.tier == 'thorough':
         names = sorted(CX)
@@ -327,6 +362,8 @@ def post_merge(counters, sets, tier):
     want = len(VALUES) * len(targets())
     if len(sets.get('cells', ())) < want:
         reasons.append(f"only {len(sets.get('cells', ()))} of {want} matrix cells were visited")
+    if counters.get('equal_value_sequence_calls', 0) < 2000:
+        reasons.append(f"only {counters.get('equal_value_sequence_calls', 0)} calls in the equal-value sequences")
     if len([c for c in sets.get('contexts', ()) if '>' not in c]) < 20:
         reasons.append("not every embedding context was visited")
     return reasons
